@@ -23,4 +23,6 @@ def main():
             if d["status"] == "sat":
                 print("       model:", json.dumps(d["model"])[:400])
         if r.opaque: print("   opaque:", sorted(r.opaque))
+        dead = [k for k, v in getattr(r, "call_feas", {}).items() if v[0] == 0 and v[1] > 0]
+        if dead: print("   VACUOUS CALL SITES:", dead)
 main()
